@@ -11,6 +11,7 @@ import (
 	"time"
 
 	"github.com/karagenc/socket.io-go/internal/sync"
+	"github.com/karagenc/socket.io-go/internal/verifhook"
 
 	"github.com/karagenc/socket.io-go/engine.io/parser"
 	"github.com/karagenc/socket.io-go/engine.io/transport"
@@ -38,6 +39,7 @@ func NewServerTransport(callbacks *transport.Callbacks, maxBufferSize int64, pol
 func (t *ServerTransport) Name() string { return "polling" }
 
 func (t *ServerTransport) Send(packets ...*parser.Packet) {
+	verifhook.Point("polling.ServerTransport.Send:enter")
 	t.pq.add(packets...)
 }
 
